@@ -133,8 +133,8 @@ Stop ==           \* graceful exit is requested: the root tasks are cancelled
   /\ UNCHANGED <<obj, chan, bl, up, mem, run, pc, cyc, now, conf>>
 StreamEnd ==      \* ... the watcher among them: its stream is closed, the backlog may still be drained
   /\ up /\ stopping /\ ~gh.closed
-  /\ gh' = [gh EXCEPT !.closed = TRUE]
-  /\ UNCHANGED <<obj, chan, bl, up, stopping, mem, run, pc, cyc, now, bud, conf>>
+  /\ gh' = [gh EXCEPT !.closed = TRUE] /\ chan' = <<>>       \* what it had not handed over is lost
+  /\ UNCHANGED <<obj, bl, up, stopping, mem, run, pc, cyc, now, bud, conf>>
 \* the peering engine turns the operator's pause toggle on: the daemon killer wakes up, and a few iterations of the loop later
 \* the streams are closed (what they had not handed over is dropped; what they hand over until then sneaks into the workers);
 \* ... and off: the watchers start over with a listing
